@@ -675,6 +675,8 @@ class Frame:
                 return fr.eval(mi.assigns[name])
         if name in mi.imports:
             m, nm = mi.imports[name]
+            if m == PKG_NAME and nm is None:
+                return ModRef("__init__")
             r = self.I.facts.resolve_name(self.mod, name)
             if r:
                 if r in self.I.repo.modules:
@@ -694,7 +696,8 @@ class Frame:
     def external(self, full: str) -> Any:
         key = "ext:" + full
         if key in self.I.stubs:
-            return self.I.stubs[key]
+            v = self.I.stubs[key]
+            return FuncRef(None, builtin=full) if callable(v) and not isinstance(v, (SObj, Inst)) else v
         short = full.split(".")[-1]
         if full in TYPE_TAGS:
             return TypeRef(TYPE_TAGS[full])
